@@ -6,3 +6,4 @@ import PptxModel.Props.C19
 import PptxModel.Model.Geometry
 import PptxModel.Props.C17
 import PptxModel.Props.C14
+import PptxModel.Props.C04
